@@ -491,6 +491,26 @@ pub fn probe_image(image: &str, scratch: &str, ttl: bool, allow: bool) -> (u64, 
     (now, recsize, rest.to_string())
 }
 
+/// Two opens in a row of one copy of `image`: the second sees the file as the first left it.
+pub fn probe_twice(image: &str, scratch: &str, ttl: bool, allow: bool) -> (String, String) {
+    std::fs::copy(image, scratch).unwrap();
+    let strip = |out: String| -> String {
+        let mut rest = out.as_str();
+        if let Some(r) = rest.strip_prefix("now=") {
+            rest = r.split_once(' ').map_or("", |x| x.1);
+            if let Some(r) = rest.strip_prefix("recsize=") {
+                rest = r.split_once(' ').map_or("", |x| x.1);
+            }
+        }
+        rest.to_string()
+    };
+    let args = ["probe".to_string(), format!("path={scratch}"), format!("ttl={}", ttl as u8), format!("allow={}", allow as u8), "noworkload=1".to_string()];
+    let l1 = strip(run_child(&args, 180).unwrap_or_else(|| "SPAWN-FAILED".into()));
+    let l2 = strip(run_child(&args, 180).unwrap_or_else(|| "SPAWN-FAILED".into()));
+    let _ = std::fs::remove_file(scratch);
+    (l1, l2)
+}
+
 /// Property oracle on the implementation's own answer (C17 half): no panic, no hang.
 pub fn open_verdict(line: &str) -> String {
     if line.contains("unchanged=0") {
